@@ -2,7 +2,10 @@ package c12
 
 import (
 	"fmt"
+	"io"
+	"log"
 	"sync"
+	"sync/atomic"
 	"testing"
 
 	logging "github.com/ipfs/go-log/v2"
@@ -15,6 +18,7 @@ var R *ev.Run
 func TestMain(m *testing.M) {
 	// The proxy logs every request; keep the run output readable.
 	logging.SetAllLoggers(logging.LevelFatal)
+	log.SetOutput(io.Discard) // net/http server error log (superfluous WriteHeader notices)
 	R = ev.New("C12", "exploration")
 	R.Rule("finite product, every element sent as a real HTTP request through a real ipfsproxy.Server standing between a recording fake IPFS daemon and recording RPC services. " +
 		"Hijack space: command {pin/add,pin/rm,pin/ls,pin/update,add,repo/stat,repo/gc} x argument style {?arg=, /{arg}} x argument alphabet x option set (none, each option alone, every pair of options with different keys) x HTTP method; " +
@@ -23,9 +27,14 @@ func TestMain(m *testing.M) {
 		"it is non-trivial when the proxy produced an HTTP answer for it (every case reaches the router; cases without an answer are reported, not counted).")
 	R.Assume("fake daemon and recording RPC services answer deterministically and never fail on their own; the only rejecting input is the designated CID 'cid-rejected' (every Cluster operation on it fails) and 'cid-unpinned' (PinGet fails)")
 	R.Assume("methods OPTIONS/HEAD/DELETE/PATCH on a command path, a trailing path segment on commands without string arguments (add, repo/stat, repo/gc), a multi-segment or empty trailing argument: the property text does not say on which side they fall; the oracle accepts a complete hijack, a faithful relay, or a proxy-made non-2xx answer without any effect, and still applies every safety clause")
-	R.Assume("the daemon's own OPTIONS (CORS pre-flight) and POST /api/v0/version (header extraction) requests issued by the proxy while answering a hijacked request are not 'the mutating call it replaces'")
+	R.Assume("the proxy's own auxiliary requests to the daemon while answering a hijacked request (OPTIONS pre-flight carrying Access-Control-Request-Method, and the one-off POST to the configured extract_headers_path, set to a path no case uses) are not 'the mutating call it replaces'; the daemon counts them separately and answers them 204")
 	R.Assume("HTTP hop-by-hop details (header set, X-Forwarded-For, connection reuse) are outside the property; 'unchanged' is decided on method, raw request target (path and raw query) and body bytes, 'the daemon's response' on status code and body bytes")
-	ev.Main(m.Run, R)
+	ev.Main(func() int {
+		c := m.Run()
+		R.Note("transport_retries", atomic.LoadInt64(&transportRetries))
+		R.Note("violations_reexecuted", atomic.LoadInt64(&reexecuted))
+		return c
+	}, R)
 }
 
 // workers is the number of independent rigs (proxy + daemon + recorder)
@@ -83,4 +92,41 @@ func runParallel(t *testing.T, n int, fn func(g *rig, i int)) {
 	if len(panics) > 0 {
 		t.Fatalf("harness panics: %v", panics[:1])
 	}
+}
+
+// Every violation is re-executed before it is reported (first occurrences of
+// each key): a symptom that does not reproduce is an internal error of the
+// check (exit 2), never a verdict.
+var (
+	reexecuted int64
+	confirmMu  sync.Mutex
+	confirmed  = map[string]int{}
+)
+
+const confirmRuns = 2   // extra executions per confirmed violation
+const confirmPerKey = 3 // occurrences of one key that are re-executed
+
+func needsConfirm(key string) bool {
+	confirmMu.Lock()
+	defer confirmMu.Unlock()
+	confirmed[key]++
+	return confirmed[key] <= confirmPerKey
+}
+
+// confirm re-runs a case and says whether symptom shows up every time.
+func confirm(key string, again func() []string) bool {
+	for i := 0; i < confirmRuns; i++ {
+		atomic.AddInt64(&reexecuted, 1)
+		found := false
+		for _, s := range again() {
+			if s == key {
+				found = true
+			}
+		}
+		if !found {
+			R.Broken("FLAKY-INTERNAL: violation %s did not reproduce on re-execution", key)
+			return false
+		}
+	}
+	return true
 }
